@@ -6,7 +6,7 @@ cd /verif
 PYTHONPATH=/verif /venv/bin/python - <<'PY'
 from pwsa.model import Repo, AnalysisError
 from pwsa.rules import load_all, RULES
-from pwsa.report import load_known, known_match
+from pwsa.report import load_known, known_match, partition_known
 load_all(); r = Repo(); known = load_known()["known"]
 for name, f in RULES.items():
     try:
@@ -15,8 +15,8 @@ for name, f in RULES.items():
         print("  ERROR", name, str(e)[:200]); continue
     except Exception as e:
         print("  CRASH", name, type(e).__name__, str(e)[:200]); continue
-    for o in obs:
-        if o.status == "violation" and not any(known_match(p, o, known) for p in o.props):
-            print("  VIOL ", o.text()[:260])
+    _, unl = partition_known([o for o in obs if o.status == "violation"], known, lambda o: o.props)
+    for o in unl:
+        print("  VIOL ", o.text()[:260])
 PY
 cd /repo && git checkout -q -- . && git clean -fdq -- photon_weave
